@@ -151,7 +151,7 @@ func refSegment(data []byte) (segs []refSeg, ok bool) {
 
 // ---- generators ---------------------------------------------------------------------
 
-var c11UnknownCodes = []uint64{0x3f, 0x0930, 0x0900 - 1, 0x0911, 0x01e0, 0x400000, 0x12345678, 1}
+var c11UnknownCodes = []uint64{0x3f, 0x0930, 0x0900 - 1, 0x0911, 0x01e0, 0x400000, 0x12345678, 1, 1 << 56, 1<<63 - 1}
 
 func c11Unknown(r *rand.Rand, code uint64, plen int) *metadata.Unknown {
 	p := make([]byte, plen)
@@ -195,9 +195,9 @@ func c11Proto(r *rand.Rand, kind int) metadata.Protocol {
 	case 4:
 		return metadata.HTTPV1() // the library's own constructor for the plain HTTP protocol
 	default:
-		plen := []int{0, 1, 2, 127, 128, 300, 1000}[r.Intn(7)]
+		plen := []int{0, 1, 2, 127, 128, 300, 1000, 1013, 1014, 1021, 1022, 1023, 1024}[r.Intn(13)]
 		if r.Intn(3) == 0 {
-			plen = r.Intn(1001)
+			plen = r.Intn(1025)
 		}
 		return c11Unknown(r, c11UnknownCodes[r.Intn(len(c11UnknownCodes))], plen)
 	}
@@ -403,6 +403,7 @@ func c11Sampled(c *vf.Ctx) {
 		return
 	}
 	n := c.N(30000, 400000)
+	var prevEnc, prevCopy []byte
 	for i := 0; i < n; i++ {
 		if !c.Mine(sub, i) {
 			continue
@@ -424,6 +425,14 @@ func c11Sampled(c *vf.Ctx) {
 			return map[string]any{"members_hex_in_construction_order": encs}
 		}
 		c.Guard(sub, i, wit, func() { c11CheckRoundTrip(c, sub, i, members, wit) })
+		// an encoding handed out earlier stays what it was while other metadata is encoded
+		if prevEnc != nil && !bytes.Equal(prevEnc, prevCopy) {
+			c.Fail(sub, i, "earlier-encoding-changed-by-a-later-encode", fmt.Sprintf("the bytes returned for the previous metadata now read %x", prevEnc[:min(len(prevEnc), 24)]), wit())
+		}
+		mdp := metadata.Default.New(members...)
+		if enc, err := mdp.MarshalBinary(); err == nil {
+			prevEnc, prevCopy = enc, append([]byte(nil), enc...)
+		}
 		c.Eval(1)
 		if size >= 3 {
 			c.Distinct(sub, idsOf(members))
